@@ -526,7 +526,9 @@ impl Lexer<'_> {
             match mode {
                 LexerMode::ExpectSymbol(tok_type, tok_channel) => {
                     // If we were expecting a token - call lexing that will effectively
-                    // emit an error and the token
+                    // emit an error and the token. It pops the expectation mode itself,
+                    // so put it back first or the next pending mode would be lost
+                    self.push_mode(LexerMode::ExpectSymbol(tok_type, tok_channel));
                     self.lex_expected_token(None, tok_type, tok_channel);
                 }
                 LexerMode::ExpectSemiOrEOF | LexerMode::MacroDo => {
@@ -569,8 +571,11 @@ impl Lexer<'_> {
                         }
                     }
                 }
-                LexerMode::StringExpr { .. } => {
-                    // This may happen if we have unbalanced `"` or `'` as the last character
+                LexerMode::StringExpr { allow_stat } => {
+                    // This may happen if we have unbalanced `"` or `'` as the last character.
+                    // The handler pops the string expression mode itself, so put it back first
+                    // or the next pending mode would be lost
+                    self.push_mode(LexerMode::StringExpr { allow_stat });
                     self.handle_unterminated_str_expr(Payload::None);
                 }
                 LexerMode::MacroNameExpr(_, err) => {
